@@ -348,7 +348,8 @@ def run(ctx):
     jobs = [
         ("index", "MCIndex", write_cfg("MCIndex_run", {"Mode": '"all"', "Big": B(not q), "RawBig": B(not q), "ColsFull": B(not q)})),
         ("names", "MCNames", write_cfg("MCNames_run", {"Mode": '"all"', "MaxNames": 3 if q else 4, "MaxEntries": 2 if q else 3,
-                                                         "DjbLen": 2 if q else 3, "PoolNames": 2 if q else 3, "RawLen": 2 if q else 3})),
+                                                         "DjbLen": 2 if q else 3, "PoolNames": 2 if q else 3, "RawLen": 2 if q else 3,
+                                                         "AbbrBig": B(not q)})),
         ("tables", "MCAranges", write_cfg("MCAranges_run", {"Mode": '"all"', "MaxTuples": 2 if q else 3})),
         ("loader", "MCLoader", "MCLoader"),
     ]
